@@ -14,10 +14,6 @@ def isScalarB : BVal → Bool
   | .cont _ => false
   | _ => true
 
-def fuelOf : BVal → Nat
-  | .cont bs => bs.length + 1
-  | _ => 1
-
 def scalarTok : BVal → String
   | .null => "n"
   | .bool true => "t"
